@@ -173,10 +173,10 @@ type vfWorld struct {
 	chain      []*vfBlock // current best chain, chain[i].height == i+1
 	nextBid    int
 	applied    int
-	orphans    [][]*vfBlock              // reverted branches that may be re-applied (crossing the same block again)
-	wellFormed bool                      // false once an ill-formed update was committed: C01 monitors off
-	replay     []func(db *Store) error   // non-chain operations, for the best-chain replay
-	tipSnaps   map[int]map[string]string // block id -> chain columns right after that block was applied
+	orphans    [][]*vfBlock                 // reverted branches that may be re-applied (crossing the same block again)
+	wellFormed bool                         // false once an ill-formed update was committed: C01 monitors off
+	replay     []func(db *Store) error      // non-chain operations, for the best-chain replay
+	tipSnaps   map[string]map[string]string // chain (the ids of all its blocks: the generator may reconnect an orphaned block on a different parent) -> chain columns right after its tip was applied
 	nontrivial bool
 	visited    map[string]bool
 	prevM      string
@@ -1191,7 +1191,7 @@ func (w *vfWorld) commit(reverts, applies []*vfBlock) {
 	// disconnecting blocks undoes what connecting them did: the chain columns are those recorded
 	// when the current tip was applied (modulo one-way rejection, for contracts known back then)
 	if len(reverts) > 0 && len(applies) == 0 && len(w.chain) > 0 {
-		if then, ok := w.tipSnaps[w.chain[len(w.chain)-1].bid]; ok {
+		if then, ok := w.tipSnaps[vfChainKey(w.chain)]; ok {
 			for k, v := range then {
 				if vfModRej(cols[k]) != vfModRej(v) {
 					w.em.Monitor("revert-does-not-restore-chain-state-"+k[:2], fmt.Sprintf("contract %s: after reverting to block %d: %s; when that block was the tip: %s", k, w.chain[len(w.chain)-1].bid, cols[k], v))
@@ -1201,7 +1201,7 @@ func (w *vfWorld) commit(reverts, applies []*vfBlock) {
 		}
 	}
 	if len(applies) > 0 {
-		w.tipSnaps[applies[len(applies)-1].bid] = cols
+		w.tipSnaps[vfChainKey(w.chain)] = cols
 		// rejection: complete at applied blocks, never without cause
 		h := applies[len(applies)-1].height
 		for _, l := range [][]*vfContract{w.v1, w.v2} {
@@ -1222,6 +1222,16 @@ func (w *vfWorld) commit(reverts, applies []*vfBlock) {
 			}
 		}
 	}
+}
+
+// vfChainKey identifies a chain by the ids of all its blocks (a block id alone does not: the generator
+// reconnects orphaned blocks, possibly on top of a different parent of the same height)
+func vfChainKey(chain []*vfBlock) string {
+	var sb strings.Builder
+	for _, b := range chain {
+		fmt.Fprintf(&sb, "%d,", b.bid)
+	}
+	return sb.String()
 }
 
 func reverseBlocks(b []*vfBlock) []*vfBlock {
@@ -1430,7 +1440,7 @@ func (w *vfWorld) rescan() {
 	}
 	w.checkShadow("after rescan")
 	if w.mode == "C01" && w.wellFormed && len(chain) > 0 {
-		w.tipSnaps[chain[len(chain)-1].bid] = vfChainCols(w.t, w.db)
+		w.tipSnaps[vfChainKey(chain)] = vfChainCols(w.t, w.db)
 	}
 }
 
@@ -2013,7 +2023,7 @@ func vfRun(t *testing.T, mode string) {
 			t.Fatal(err)
 		}
 		w := &vfWorld{t: t, em: em, mode: mode, rng: rng, db: db, dir: dir, id: id, wellFormed: true,
-			tipSnaps: map[int]map[string]string{}, visited: map[string]bool{}}
+			tipSnaps: map[string]map[string]string{}, visited: map[string]bool{}}
 		desc := "generated reorg history"
 		if id < len(vfDirected) {
 			desc = fmt.Sprintf("directed case %d", id)
